@@ -2,7 +2,7 @@
    the byte encoding of the reference's commands, the comparison of the two states, and run_case. *)
 From Coq Require Import ZArith List Bool.
 Import ListNotations.
-From Urwid Require Import PyBase VTerm VT100Ref.
+From Urwid Require Import PyBase vterm_csi_gen VTerm VT100Ref.
 Open Scope Z_scope.
 
 (* a parameter: negative = omitted *)
@@ -69,6 +69,24 @@ Definition agrees (s : st) (v : vt) : bool :=
   && (fst (cur s) =? v_x v) && (snd (cur s) =? v_y v)
   && (sr_start s =? v_top v) && (sr_end s =? v_bot v).
 
+(* the history: the answers written to the host are the reference's answers, and (as long as the reference knows
+   what the scrollback holds) the scrollback holds the lines that left the top of the screen, in order - the
+   last scrollback_maxlen_gen of them (deque(maxlen=...)) *)
+Definition replies_of (evs : list event) : list (list Z) :=
+  flat_map (fun e => match e with Respond r => [r] | _ => [] end) (rev evs).
+Definition render_reply (r : reply) : list Z :=
+  match r with RStatusOk => reply_ok | RCursor row col => reply_cpr row col end.
+Definition tail_max {A} (l : list A) : list A := dropz (zlen l - scrollback_maxlen_gen) l.
+Fixpoint lists_eqb (a b : list (list Z)) : bool :=
+  match a, b with
+  | [], [] => true
+  | x :: a', y :: b' => list_eqb x y && lists_eqb a' b'
+  | _, _ => false
+  end.
+Definition agrees_history (s : st) (v : vt) : bool :=
+  lists_eqb (replies_of (events s)) (map render_reply (v_replies v))
+  && (if v_sbknown v then all2 (all2 cell_agrees) (sb s) (tail_max (v_sb v)) else true).
+
 (* the reference, stopping before the first command on which terminals differ *)
 Fixpoint run_ref_n (v : vt) (cs : list cmd) (n : Z) : vt * Z :=
   match cs with
@@ -111,7 +129,8 @@ Definition enc_rrows (g : list rrow) : list Z :=
 Definition enc_vt (v : vt) : list Z :=
   [v_w v; v_h v] ++ enc_rrows (v_g v)
   ++ [v_x v; v_y v; enc_bool (v_pend v); v_top v; v_bot v] ++ enc_rattr (Some (v_attr v))
-  ++ enc_rrows (v_sb v) ++ [enc_bool (v_sbknown v)].
+  ++ enc_rrows (v_sb v) ++ [enc_bool (v_sbknown v)]
+  ++ (zlen (v_replies v) :: flat_map (fun r => match r with RStatusOk => [5; 0; 0] | RCursor a b => [6; a; b] end) (v_replies v)).
 
 (* case  = 0 <vterm case>                        -> the emulator model alone
          | 1 e w h cmd*                          -> the emulator model fed with enc_cmds, then -7 and
